@@ -92,7 +92,7 @@ class SAModel(tuple):
 
 
 def trace_encode(fx, version, level, boosted, mask_in=None, eci=False, sa_info=None, boost_error=True, nsegs=1, segments=None,
-                 real_write_segment=False, extra=None):
+                 real_write_segment=False, extra=None, real=()):
     """Interpret encoder._encode with every stage replaced by a recording stand-in.  Returns the list of
     (stage name, positional args, keyword args, len of the bit buffer at the call) and the value returned.
 
@@ -117,14 +117,15 @@ def trace_encode(fx, version, level, boosted, mask_in=None, eci=False, sa_info=N
                 buf.bits.extend([0] * grow)
             return result(*a, **k) if callable(result) else result
         return f
-    it = Interp(max_steps=400_000)
+    it = Interp(max_steps=2_000_000)
     M0, M1 = ['M0'], ('M1',)
     over = dict(extra or {})
     if not real_write_segment:
         over['write_segment'] = stage('write_segment', grow=37)
+    if 'boost_error_level' not in real:
+        over['boost_error_level'] = stage('boost_error_level', None if boosted is None else lv[boosted])
     genv = encoder_env(
         fx.forest, it, Buffer=B, **over,
-        boost_error_level=stage('boost_error_level', None if boosted is None else lv[boosted]),
         write_terminator=stage('write_terminator', grow=3), write_padding_bits=stage('write_padding_bits', grow=5),
         write_pad_codewords=stage('write_pad_codewords', grow=16), make_final_message=stage('make_final_message', 'FINAL'),
         make_matrix=stage('make_matrix', M0), add_finder_patterns=stage('add_finder_patterns'), add_alignment_patterns=stage('add_alignment_patterns'),
